@@ -4,7 +4,8 @@ usage: sweep_seeds.py [seed-filter...]   (never touches /repo)"""
 import glob, json, os, shutil, subprocess, sys, tempfile
 V = os.path.dirname(os.path.dirname(os.path.abspath(__file__)))
 PROPS = "C01 C02 C04 C05 C06 C07 C08 C09 C10 C11 C12 C13 C14 C15 C16 C17 C18 C19 C20".split()
-flt = sys.argv[1:]
+WRITE = "--write" in sys.argv
+flt = [a for a in sys.argv[1:] if a != "--write"]
 missed = []
 for d in sorted(glob.glob(os.path.join(V, "seeded", "*"))):
     sid = os.path.basename(d)
@@ -26,6 +27,9 @@ for d in sorted(glob.glob(os.path.join(V, "seeded", "*"))):
         print(f"{sid}: VIOLATION in {hit}" + (f"  not-decided in {und}" if und else "") + ("" if own else f"   (own property {meta['property']} silent)"))
         if not hit:
             missed.append(sid)
+        if WRITE:
+            meta["reported_by"] = hit
+            json.dump(meta, open(os.path.join(d, "meta.json"), "w"), indent=1)
     finally:
         shutil.rmtree(t, ignore_errors=True)
 print("MISSED:", missed)
